@@ -28,7 +28,11 @@ func burst(rate int64) int64 {
 // slack: one write in progress per connection plus what the statement does not count
 // (bytes in socket buffers can only delay delivery, so they never help a violation hide in
 // the lower-bound direction; the slack covers post-paid accounting of in-flight writes).
-const slack = 256 << 10
+const slack = 64 << 10
+
+// slackFor adds one copy buffer in flight per connection (the limiter is charged after the
+// write has happened).
+func slackFor(conns int) float64 { return float64(slack + conns*(64<<10)) }
 
 type sample struct {
 	t   time.Duration
@@ -51,13 +55,13 @@ func (r *recorder) add(n int) {
 
 // prefixExcess returns the largest cum(t) - (B + R*t + S) over all samples (<= 0 means the
 // envelope from the start of the run holds) and the sample where it occurs.
-func (r *recorder) prefixExcess(rate int64) (float64, sample) {
+func (r *recorder) prefixExcess(rate int64, conns int) (float64, sample) {
 	r.mu.Lock()
 	defer r.mu.Unlock()
 	worst := -1e18
 	var ws sample
 	for _, s := range r.samples {
-		ex := float64(s.cum) - (float64(burst(rate)) + float64(rate)*s.t.Seconds() + slack)
+		ex := float64(s.cum) - (float64(burst(rate)) + float64(rate)*s.t.Seconds() + slackFor(conns))
 		if ex > worst {
 			worst, ws = ex, s
 		}
@@ -428,7 +432,7 @@ func runCase(run *lib.Run, w *world, tc tcase, idx int, r *lib.RNG) outcome {
 }
 
 func main() {
-	run := lib.Start("C20", "large transfers (downloads and uploads, plain requests and CONNECT tunnels, 1/2/4 connections sharing one listener) through listeners with read-limit / write-limit pairs from {0,1,2,4} MiB/s, each on its own proxy instance, run concurrently; clients (origin/target for uploads) record (time since before the first connect, cumulative bytes) on every read; decisive: cumulative bytes <= burst + rate*t + 256 KiB at every sample (sound lower bound on duration, load can only make it safer); unlimited directions must finish in under half the time throttling at the other direction's rate would need, judged against a no-limit control; payloads are offset streams compared byte for byte; distinct = (limits, direction, via, connections) signatures")
+	run := lib.Start("C20", "large transfers (downloads and uploads, plain requests and CONNECT tunnels, 1/2/4 connections sharing one listener) through listeners with read-limit / write-limit pairs from {0,1,2,4} MiB/s, each on its own proxy instance, run concurrently; clients (origin/target for uploads) record (time since before the first connect, cumulative bytes) on every read; decisive: cumulative bytes <= burst + rate*t + 64 KiB + 64 KiB per connection at every sample (sound lower bound on duration, load can only make it safer); unlimited directions must finish in under half the time throttling at the other direction's rate would need, judged against a no-limit control; payloads are offset streams compared byte for byte; distinct = (limits, direction, via, connections) signatures")
 	root := run.RNG()
 	w := &world{}
 	w.origin = lib.MustOrigin("origin", "127.0.0.1:0", nil, w.originHandler)
@@ -457,6 +461,18 @@ func main() {
 		{name: "W2-tunnel-ul", w: 2 * MiB, dir: "upload", via: "tunnel", conns: 1, size: 12 * MiB, limited: true},
 		{name: "R1W4-dl", r: 1 * MiB, w: 4 * MiB, dir: "download", via: "http", conns: 1, size: 9 * MiB, limited: true},
 		{name: "R1W4-ul", r: 1 * MiB, w: 4 * MiB, dir: "upload", via: "tunnel", conns: 1, size: 20 * MiB, limited: true},
+		// many connections queueing on one limiter: each write waits longer than a second
+		{name: "R1-32conns-dl", r: 1 * MiB, dir: "download", via: "http", conns: 32, size: 352 << 10, limited: true},
+		{name: "W1-32conns-ul", w: 1 * MiB, dir: "upload", via: "tunnel", conns: 32, size: 352 << 10, limited: true},
+		// a very low limit: one 32 KiB copy buffer costs more than a second of tokens
+		{name: "R24K-tunnel-dl", r: 24 << 10, dir: "download", via: "tunnel", conns: 1, size: 4*MiB + 240<<10, limited: true},
+		{name: "W24K-tunnel-ul", w: 24 << 10, dir: "upload", via: "tunnel", conns: 1, size: 4*MiB + 240<<10, limited: true},
+	}
+	if !run.Quick() {
+		// very low limits: a single copy buffer costs more than a second of tokens
+		cases = append(cases,
+			tcase{name: "R16K-dl", r: 16 << 10, dir: "download", via: "http", conns: 1, size: 4*MiB + 768<<10, limited: true},
+			tcase{name: "W32K-ul", w: 32 << 10, dir: "upload", via: "tunnel", conns: 1, size: 4*MiB + 1024<<10, limited: true})
 	}
 	if !run.Quick() {
 		rr := root.Sub(4242)
@@ -492,7 +508,7 @@ func main() {
 		var wg sync.WaitGroup
 		conc := 3
 		if phase == 2 {
-			conc = 14
+			conc = 24
 		}
 		sem := make(chan struct{}, conc)
 		for i, tc := range cases {
@@ -524,6 +540,7 @@ func main() {
 		total := int64(tc.size * tc.conns)
 		wit := map[string]any{"case": tc.name, "read_limit": tc.r, "write_limit": tc.w, "direction": tc.dir, "via": tc.via, "connections": tc.conns, "bytes_total": total, "duration_s": o.dur.Seconds()}
 		run.Sample(wit)
+		fmt.Printf("transfer %-22s total=%d dur=%.2fs samples=%d err=%q\n", tc.name, total, o.dur.Seconds(), len(o.rec.samples), o.err)
 		if o.err != "" {
 			run.Violation("transfer-failed:"+tc.dir+":"+tc.via, fmt.Sprintf("%s: %s", tc.name, o.err), i, wit)
 			continue
@@ -540,8 +557,8 @@ func main() {
 		}
 		if lim > 0 {
 			run.Count("limited_transfers_checked", 1)
-			ex, s := o.rec.prefixExcess(lim)
-			wit["min_duration_s"] = (float64(total) - float64(burst(lim)) - slack) / float64(lim)
+			ex, s := o.rec.prefixExcess(lim, tc.conns)
+			wit["min_duration_s"] = (float64(total) - float64(burst(lim)) - slackFor(tc.conns)) / float64(lim)
 			wit["samples"] = len(o.rec.samples)
 			if ex > 0 {
 				run.Violation(fmt.Sprintf("rate-exceeded:%s:%s:x%d", tc.dir, tc.via, tc.conns), fmt.Sprintf("%s: %d bytes had been delivered %.3f s after the start, %.0f bytes above burst(%d) + %d B/s * t + slack", tc.name, s.cum, s.t.Seconds(), ex, burst(lim), lim), i, wit)
@@ -569,7 +586,7 @@ func main() {
 	}
 	w.origin.Close()
 	w.tun.Close()
-	run.Floor("limited_transfers_checked", 7)
+	run.Floor("limited_transfers_checked", 11)
 	run.Floor("unlimited_transfers_checked", 2)
 	run.Finish()
 }
